@@ -58,8 +58,9 @@ CHECKS = {
             U('^TestC04_Sparse$', (3, 500, 50), (5, 2500, 100)),
             U('^TestC04_Paginated$', (4, 500, 50), (4, 2500, 100)),
             U('^TestC04_LargeScale$', (3, 200), (2, 6000)),
+            U('^TestC04_PaginatedScenarios$', (3, 8000), (4, 200000)),
         ],
-        essential_labels=['kind:dense', 'kind:sparse', 'kind:paginated', 'event:array-shift', 'event:page-created', 'event:buffer-compacted', 'op:merge', 'op:encdec', 'op:proto', 'op:reweight', 'op:copy', 'op:clear', 'large-scale', 'shape:round-robin', 'paginated-method-mergewithproto', 'clear-refill-same-size', 'mutate-many:non-add'],
+        essential_labels=['kind:dense', 'kind:sparse', 'kind:paginated', 'event:array-shift', 'event:page-created', 'event:buffer-compacted', 'op:merge', 'op:encdec', 'op:proto', 'op:reweight', 'op:copy', 'op:clear', 'large-scale', 'shape:round-robin', 'paginated-method-mergewithproto', 'clear-refill-same-size', 'mutate-many:non-add', 'large-scale-merge-phase', 'paginated-scenario'],
         assumptions=COMMON_ASSUMPTIONS + ["weights are dyadic and bounded so that every float64 partial sum is exact (DESIGN §1.1); index spans are capped per store kind by memory"],
     ),
     'C05': dict(
